@@ -1029,6 +1029,52 @@ static void run_c01_c04(void) {
             }
             vh_class("bit_io", "72 start positions x 64 widths x 8 values");
         }
+        /* producer and consumer on ONE buffer: a long-lived reader follows a writer that keeps appending into the byte
+         * the reader is positioned in (chunk sizes that are not byte multiples) */
+        if (vh_section_begin("bit_io_interleaved")) {
+            static const uint8_t PATS[6][6] = {{3, 5, 1, 7, 2, 6}, {1, 1, 1, 1, 1, 1}, {7, 9, 13, 3, 33, 5}, {63, 1, 64, 7, 2, 11}, {4, 4, 12, 20, 3, 29}, {5, 3, 5, 3, 5, 3}};
+            for (int pi = 0; pi < 6; pi++) {
+                for (int vsel = 0; vsel < 3; vsel++) {
+                    if (!vh_case()) {
+                        continue;
+                    }
+                    uint8_t buf[160];
+                    varintBitWriter w;
+                    varintBitWriterInit(&w, buf, sizeof buf);
+                    varintBitReader r;
+                    varintBitReaderInit(&r, buf, 0);
+                    size_t total = 0;
+                    for (int round = 0; round < 18; round++) {
+                        size_t nb = PATS[pi][round % 6];
+                        uint64_t mask = nb == 64 ? UINT64_MAX : ((1ULL << nb) - 1);
+                        uint64_t v = (vsel == 0 ? mask : vsel == 1 ? (0x9E3779B97F4A7C15ULL >> (round & 7)) : (uint64_t)(round + 27)) & mask;
+                        varintBitWriterWrite(&w, v, nb);
+                        total += nb;
+                        r.totalBits = total; /* the consumer learns that more bits are available */
+                        uint64_t got = varintBitReaderRead(&r, nb);
+                        if (got != v) {
+                            vh_fail("elias.BitWriter/BitReader", "roundtrip_mismatch", "untagged", "interleaved writer / reader on one buffer, chunk pattern %d, round %d: wrote 0x%" PRIx64 " (%zu bits), the long-lived reader returned 0x%" PRIx64, pi,
+                                    round, v, nb, got);
+                            break;
+                        }
+                        /* the same with the Elias codes */
+                        uint64_t gv = (uint64_t)(round * 3 + 1 + vsel);
+                        size_t gb = (round & 1) ? varintEliasDeltaEncode(&w, gv) : varintEliasGammaEncode(&w, gv);
+                        total += gb;
+                        r.totalBits = total;
+                        uint64_t gg = (round & 1) ? varintEliasDeltaDecode(&r) : varintEliasGammaDecode(&r);
+                        if (gg != gv) {
+                            vh_fail((round & 1) ? "elias.delta" : "elias.gamma", "roundtrip_mismatch", "untagged", "interleaved writer / reader on one buffer, chunk pattern %d, round %d: encoded %" PRIu64 ", the long-lived reader decoded %" PRIu64, pi, round,
+                                    gv, gg);
+                            break;
+                        }
+                        vh_count("calls", 4);
+                    }
+                    vh_count("cases", 1);
+                }
+            }
+            vh_class("bit_io_interleaved", "6 chunk patterns x 3 value selections x 18 rounds");
+        }
         /* the same at far stream positions: the writer / reader structs are public, so a caller may continue a stream
          * of more than 2^31 / 2^32 bits or 2^32 bytes. The stream is a PROT_NONE reservation of 2^42 bits; only the
          * pages of the window around the addressed bits are accessible: window vs model, any other access faults */
